@@ -52,8 +52,11 @@ func c14Scenarios() []c14Scenario {
 	add("get-103-two-data-frames", 24, 20, func(x *c14Case) {
 		x.Method, x.ReqBody, x.Info, x.ResBody, x.ResTrl, x.CFrame = "GET", 0, true, 16385, -1, 1<<24-1
 	})
-	add("early-tiny-window", 48, 24, func(x *c14Case) {
-		x.Early, x.SWin, x.ReqBody, x.ReqDecl, x.CWin, x.ResBody = true, 1, 4, false, 1, 3
+	add("tiny-windows", 48, 24, func(x *c14Case) {
+		x.SWin, x.ReqBody, x.ReqDecl, x.CWin, x.ResBody = 1, 4, false, 1, 3
+	})
+	add("early-request", 24, 12, func(x *c14Case) {
+		x.Early, x.ReqTrl, x.ResTrl = true, 1, 1
 	})
 	add("headers-first-duplex", 40, 20, func(x *c14Case) {
 		x.Order, x.ReqBody, x.ReqChunk, x.SWin, x.ReqTrl, x.ResBody = 1, 250, 100, 100, 1, 20000
@@ -106,7 +109,6 @@ func TestVerif_C14(t *testing.T) {
 		c.Assume("allow-list of fields the libraries add: request User-Agent default and Content-Length (must equal the body length); response Date (any value) and Content-Length (must equal the number of bytes the handler wrote); Content-Type sniffing is avoided by always setting Content-Type; HEAD responses carry neither body nor trailers; values of one field name are compared in order, different names as a multiset; names are compared after net/http canonicalisation")
 		c.Assume("goroutine schedules are those the Go scheduler produces with GOMAXPROCS=1 inside the bubble plus the variations induced by Early and by short reads; no preemption points inside library calls are enumerated")
 
-		quickDims := c14Dims(false)
 		dims := c14Dims(wide)
 		names := map[string]int{}
 		for i, d := range dims {
@@ -126,12 +128,6 @@ func TestVerif_C14(t *testing.T) {
 			c.Note("cover.rows", rows)
 			c.Note("cover.value_tuples_covered", covered)
 			c.Note("cover.value_tuples_excluded_as_invalid", excluded)
-		}
-		if c.Quick() {
-			// the thorough tier's strength-3 array subsumes this one only for the
-			// wide value sets' superset relation; keep the quick array in both tiers
-			// is unnecessary: strength 3 over a superset of values covers every pair.
-			_ = quickDims
 		}
 
 		// ---- full products
@@ -165,17 +161,17 @@ func TestVerif_C14(t *testing.T) {
 		}
 		rq := c14Base()
 		rq.ResBody = 10
-		reqVary := []string{"s_frame", "s_win", "s_conn", "req_decl", "req_chunk", "req_trl", "early", "req_body"}
+		reqVary := []string{"s_frame", "s_win", "req_decl", "req_chunk", "req_trl", "early", "req_body"}
 		if wide {
-			reqVary = append([]string{"order"}, reqVary...)
+			reqVary = append([]string{"order", "s_conn"}, reqVary...)
 		}
 		product("request-product", rq, reqVary)
 
 		rs := c14Base()
 		rs.Method, rs.ReqBody = "GET", 0
-		resVary := []string{"c_frame", "c_win", "c_conn", "res_decl", "res_chunk", "res_flush", "res_trl", "res_body"}
+		resVary := []string{"c_frame", "c_win", "res_decl", "res_chunk", "res_flush", "res_trl", "res_body"}
 		if wide {
-			resVary = append([]string{"sched"}, resVary...)
+			resVary = append([]string{"info", "c_conn"}, resVary...)
 		}
 		product("response-product", rs, resVary)
 
@@ -183,7 +179,7 @@ func TestVerif_C14(t *testing.T) {
 		hd.ReqBody, hd.ReqDecl, hd.ResBody = 10, false, 10
 		hdrVary := []string{"c_tbl", "s_tbl", "req_trl", "res_trl", "req_hdr", "res_hdr"}
 		if wide {
-			hdrVary = append([]string{"method"}, hdrVary...)
+			hdrVary = append([]string{"early"}, hdrVary...)
 		}
 		product("header-product", hd, hdrVary)
 
@@ -198,7 +194,6 @@ func TestVerif_C14(t *testing.T) {
 			byName[s.name] = s
 		}
 		maxDev := vx.Pick(c, 1, 2)
-		var devFired, devTotal int64
 		vx.Enumerate(c, "short-read", vx.Opts{Serial: true, Crumb: true}, func(yield func(shortCase) bool) {
 			for _, s := range scen {
 				if !yield(shortCase{Scenario: s.name}) {
@@ -252,10 +247,8 @@ func TestVerif_C14(t *testing.T) {
 				w.Outcome("default-run " + s.name)
 				return
 			}
-			devTotal++
 			if st.fired == len(sc.Short) {
 				// every placed short read really truncated a read
-				devFired++
 				w.Nontrivial()
 				w.Outcome(fmt.Sprintf("short-reads=%d %s", len(sc.Short), s.name))
 				w.Distinct(fmt.Sprintf("%s|%v", s.name, sc.Short))
@@ -265,7 +258,6 @@ func TestVerif_C14(t *testing.T) {
 		})
 		if !c.Replaying() {
 			c.Note("short_read.max_deviations", maxDev)
-			c.Note(fmt.Sprintf("short_read.placements_truncating.shard%d", func() int { s, _ := c.Shard(); return s }()), fmt.Sprintf("%d of %d", devFired, devTotal))
 		}
 	})
 }
